@@ -3,7 +3,7 @@
 Used to compare hand-written sibling copies of one operation (C11, C12, C13, C15)."""
 from lib import hir as H
 
-STRIP_METHODS = {"clone", "to_string", "to_owned", "copied", "cloned", "borrow", "borrow_mut", "as_ref", "as_str", "deref", "into", "to_vec", "iter", "into_iter"}
+STRIP_METHODS = {"clone", "to_string", "to_owned", "copied", "cloned", "borrow", "borrow_mut", "as_ref", "as_str", "deref", "into", "to_vec", "iter", "into_iter", "as_slice"}
 PLUMBING_TYPES = ("blots_core::heap::Heap", "core::cell::Ref<", "core::cell::RefMut<", "alloc::rc::Rc<core::cell::RefCell<blots_core::heap::Heap", "alloc::rc::Rc<str>")
 PLUMBING_EXACT = ("blots_core::ast::Span",)
 COMMUTATIVE_BIN = {"Mul", "BitAnd", "BitOr"}
@@ -94,6 +94,8 @@ def norm(n, env, depth=0):
                 e2.inline[s["pat"]["name"]] = (s["init"], ce)
             elif s["k"] == "Let" and H.kind(s["pat"]) == "Tuple" and s.get("init") is not None:
                 bind_tuple(s["pat"], s["init"], e2)
+            elif s["k"] == "Let" and H.kind(s["pat"]) == "Slice" and s.get("init") is not None:
+                bind_slice(s["pat"], s["init"], e2)
         if n.get("expr") is not None:
             return norm(n["expr"], e2, depth + 1)
         return ("unit",)
@@ -257,6 +259,8 @@ def result_tail(n, env, depth=0):
                 e2.inline[s["pat"]["name"]] = (s["init"], ce)
             elif s["k"] == "Let" and H.kind(s["pat"]) == "Tuple" and s.get("init") is not None:
                 bind_tuple(s["pat"], s["init"], e2)
+            elif s["k"] == "Let" and H.kind(s["pat"]) == "Slice" and s.get("init") is not None:
+                bind_slice(s["pat"], s["init"], e2)
         if n.get("expr") is not None:
             return result_tail(n["expr"], e2, depth + 1)
         return ("unit",)
@@ -301,6 +305,20 @@ def pat_sig(p):
     if k in ("Bind", "Wild"):
         return ("_",)
     return ("?", k)
+
+
+def bind_slice(pat, init, env):
+    """let [a, b, c] = xs.as_slice() else { .. }: a = xs[0], b = xs[1], ... (fixed-length slice patterns only)"""
+    if pat.get("mid") is not None or pat.get("after"):
+        return False
+    base = norm(init, env)
+    for i, p in enumerate(pat.get("before", [])):
+        q = p
+        while H.kind(q) == "Ref":
+            q = q["pat"]
+        if H.kind(q) == "Bind":
+            env.roles[q["name"]] = ("index", base, ("lit", str(i)))
+    return True
 
 
 def bind_tuple(pat, init, env):
